@@ -11,7 +11,9 @@ META = {
             "matrix port x asker x valid-from x expiry x time; the same matrix at real times (valid-from and expiry absent / "
             "past / exactly now / future) plus seeded random windows is executed on a real default server - interactive "
             "password, passkey and generated-password login, LDAP bind / bound session / token bind, unix password check, "
-            "RADIUS secret release, unix token, bearer and API token use, client certificate, OAuth2 authorise / refresh / "
+            "RADIUS secret release, unix token, bearer use of previously issued tokens of EVERY account kind (person, "
+            "service account login token and API token, anonymous), anonymous login / LDAP anonymous bind / bound session / token "
+            "bind with the window put on the anonymous account AFTER issue, client certificate, OAuth2 authorise / refresh / "
             "introspect - as the end user, a member of idm_radius_servers, a member of idm_unix_authentication_read, anonymous "
             "and the internal identity, and every outcome is judged in TLA+ against the window stored on the account.",
     "note": "finite matrix fully replayed; boundary instants (t = valid-from, t = expiry) may go either way; the OAuth2 "
@@ -53,13 +55,13 @@ def run(tier, replay):
         if r["a"] != "port":
             continue
         outside = (r["vf"] >= 0 and r["t"] < r["vf"]) or (r["ex"] >= 0 and r["ex"] < r["t"])
-        k = f"{r['port']}/{r['asker']}"
+        k = f"{r['port']}/{r['asker']}/{r['acct']}"
         c = cells.setdefault(k, {"outside": 0, "outside_released": 0, "inside_or_edge": 0, "released": 0})
         c["outside" if outside else "inside_or_edge"] += 1
         c["released"] += int(r["rel"])
         c["outside_released"] += int(r["rel"] and outside)
     if not replay and not R.violations:
-        need = 22  # distinct port x asker cells of the matrix
+        need = 28  # distinct port x asker x account cells of the matrix (person, service account, anonymous)
         if len(cells) < need or any(c["outside"] == 0 or c["inside_or_edge"] == 0 for c in cells.values()):
             lib.tool_error(f"matrix not covered: {len(cells)} cells")
         def mutate(ps):
